@@ -216,6 +216,7 @@ package stage
 
 // the Walk callback is verified in the context of cleanStrays (specs: filepath.Walk callback fn)
 //@ func (*Stage).cleanStrays
+//@   before call sts.ReceiveLogger.WasReceived assert log-is-searched-back-sixty-times-the-age: arg1 == relPath && arg3 == lastret((time.Time).Add, 0) && lastarg((time.Time).Add, 0) == info.ModTime() && called((time.Duration).Minutes) && lastarg((time.Duration).Minutes, 0) == age && 0 - lastarg((time.Time).Add, 1) > 3600000000000 * (lastret((time.Duration).Minutes, 0) - 1)
 //@   before call readLocalCompanion assert reads-companion-of-the-partial: arg0 == compPath
 //@   before call os.Remove assert only-part-files: ext == partExt && (arg0 == partPath || arg0 == compPath)
 //@   before call os.Remove assert young-partials-untouched: clock - lastret(fs.FileInfo.ModTime, 0) >= minAge
